@@ -82,7 +82,17 @@ let line_in (s : string) : W.line =
       else failwith "line desc"
   | _ -> failwith "line"
 
+(* <linehex>~<desc>,… : the classification of the raw lines of a file given as bytes *)
+let table_in (s : string) : Bytes.bytes -> W.line =
+  let tbl = if s = "" then [] else Stdlib.List.map (fun it ->
+      match splitn 2 '~' it with [h; _] -> (bytes_of_hex h, line_in it) | _ -> failwith "table") (split ',' s) in
+  fun b -> match Stdlib.List.assoc_opt b tbl with Some l -> l | None -> failwith ("unclassified line " ^ hex_of_bytes b)
+
 let wput (d : W.wdir) (spec : string) : W.wdir =
+  match splitn 4 '=' spec with
+  | [n; "b"; c] -> W.put (bytes_of_hex n) (W.WFile (W.file_lines (table_in "") (bytes_of_hex c))) d
+  | [n; "b"; c; t] -> W.put (bytes_of_hex n) (W.WFile (W.file_lines (table_in t) (bytes_of_hex c))) d
+  | _ ->
   match splitn 3 '=' spec with
   | [n; "d"] -> W.put (bytes_of_hex n) W.WDir d
   | [n; "f"] -> W.put (bytes_of_hex n) (W.WFile []) d
@@ -145,6 +155,10 @@ let run_case (t : string list) : string =
                 (match w'.W.w_cwal with Some d -> xwal := d | None -> ());
                 root := w'.W.w_root;
                 obs := (if !use_x then "C:" ^ listing_w !wal ^ "/" ^ listing_w !xwal else "C:" ^ listing_w !wal) :: !obs
+            | ["RPL"; n] ->
+                obs := (match W.lookup (bytes_of_hex n) (if !use_x then !xwal else !wal) with
+                        | Some (W.WFile ls) -> "RPL:" ^ entries_out (W.memtable_order (W.replay_entries ls))
+                        | _ -> "RPL:none") :: !obs
             | ["L"; id] ->
                 let (r', res) = W.archive_log !fl.W.f_io !wal !root (n_of_string id) in
                 root := r';
